@@ -745,7 +745,7 @@ def gen_scales(rng, big):
             sc = 10.0 ** (rng.choice([-1, 1]) * rng.randint(7, 140))
             a = [[x * sc for x in row] for row in a]
         cases.append(["case widescale-%d-%d %s" % (n, i, STORAGE[i % 3]), mat_line(a), "eig", "trace", "getD"])
-    ne = 60 if big else 12
+    ne = 30 if big else 12
     for i in range(ne):
         n = rng.choice([2, 3, 3, 4, 5, 6])
         a = rng.choice([fam_dense, fam_symmetric, sym_tridiag])(rng, n)
